@@ -410,6 +410,32 @@ pub fn check(s: &'static dyn Proto, c: &Case, st: &mut Stats, _k: &KnownFindings
             }
         }
     }
+    // ---- the key-generation entry point of the group API (what an application calls to make the
+    // server key for ServerSetup::new_with_key): deterministic in the tape, and 32 independent
+    // tapes never give the same key twice (an 8-bit entropy collapse repeats with probability
+    // 0.86 among 32 draws; a sound sampler with probability < 2^-240)
+    {
+        let mut keys: Vec<Vec<u8>> = Vec::new();
+        for i in 0..32u64 {
+            let ts = if i % 2 == 0 { c.tape_a.sub(300 + i) } else { c.tape_b.sub(300 + i) };
+            let k = s.kg_random_sk(&mut ts.rng());
+            if i < 2 {
+                ensure_eq!(k, s.kg_random_sk(&mut ts.rng()), "KeGroup::random_sk is not a function of the tape");
+            }
+            keys.push(k);
+        }
+        for x in 0..keys.len() {
+            for y in 0..x {
+                ensure!(
+                    keys[x] != keys[y],
+                    "KeGroup::random_sk returned the same private key ({}) on two independent tapes (#{y} and #{x} of 32)",
+                    hex::encode(&keys[x])
+                );
+            }
+        }
+        st.eval(496);
+        st.label("random_sk:32 independent tapes pairwise distinct");
+    }
     // ---- rejection samplers on a stuck-then-recovering RNG: the first k calls return all-zero
     // bytes (which every rejection sampler must refuse and retry), then the tapes continue
     // independently; what is drawn must still vary with the tape.  Only samplers that reject the
@@ -464,7 +490,7 @@ pub const BUDGET: Budget = Budget {
 pub fn run(cfg: &RunCfg) -> (Outcome, EvidenceExtra) {
     let out = run_property(cfg, "C17", crate::suites::suites20(), BUDGET, strategy, check);
     let ev = EvidenceExtra {
-        rule: "case = inputs plus a pair of independent tapes (a, b) and a split position; for each of the six randomised operations (ServerSetup::new, ClientRegistration::start/finish, ClientLogin::start, ServerLogin::start with and without record): (determinism) two runs on tape a and a third in a fresh thread give byte-identical outputs, states and tape consumption; (freshness) every random value (OPRF blind at registration and login, envelope nonce, masking nonce, client/server nonce, client/server ephemeral keys, OPRF seed, static and fake key pairs, the fake-record masked response) differs between tapes a and b, all of them are pairwise distinct within a run, the part of the tape an RFC-defined value is taken from is located (nonces/seed as verbatim tape bytes, key pairs = DeriveDiffieHellmanKeyPair(tape bytes), fake masking key = the bytes whose pad reproduces the masked response, which differ across attempts) - locating it is not itself required by this property; (prefix tapes) on the tape a[..n] ++ b the outputs are identical when the consumed bytes are identical; values located on the tape before n are unchanged and values located at or after n change (no claim is made about bytes an implementation draws but does not use); (stuck-then-recovering RNG) on two tapes whose first 1-2 draws are all-zero and which then continue independently, KeGroup::random_sk (ristretto255/NIST) and the registration request still differ; (failing RNG) for every call index k the operation makes, an RNG that fails at call k (try_fill_bytes error / fill_bytes panic) makes the operation propagate that failure or return an error, or, if it returns Ok, every value that is taken from the tape in the fault-free run is still taken from successfully drawn bytes. evaluation = one relation; every case uses non-identical tape pairs; distinct by hash".into(),
+        rule: "case = inputs plus a pair of independent tapes (a, b) and a split position; for each of the six randomised operations (ServerSetup::new, ClientRegistration::start/finish, ClientLogin::start, ServerLogin::start with and without record): (determinism) two runs on tape a and a third in a fresh thread give byte-identical outputs, states and tape consumption; (freshness) every random value (OPRF blind at registration and login, envelope nonce, masking nonce, client/server nonce, client/server ephemeral keys, OPRF seed, static and fake key pairs, the fake-record masked response) differs between tapes a and b, all of them are pairwise distinct within a run, the part of the tape an RFC-defined value is taken from is located (nonces/seed as verbatim tape bytes, key pairs = DeriveDiffieHellmanKeyPair(tape bytes), fake masking key = the bytes whose pad reproduces the masked response, which differ across attempts) - locating it is not itself required by this property; (prefix tapes) on the tape a[..n] ++ b the outputs are identical when the consumed bytes are identical; values located on the tape before n are unchanged and values located at or after n change (no claim is made about bytes an implementation draws but does not use); (key generation API) KeGroup::random_sk is a function of the tape and gives 32 pairwise distinct keys on 32 independent tapes; (stuck-then-recovering RNG) on two tapes whose first 1-2 draws are all-zero and which then continue independently, KeGroup::random_sk (ristretto255/NIST) and the registration request still differ; (failing RNG) for every call index k the operation makes, an RNG that fails at call k (try_fill_bytes error / fill_bytes panic) makes the operation propagate that failure or return an error, or, if it returns Ok, every value that is taken from the tape in the fault-free run is still taken from successfully drawn bytes. evaluation = one relation; every case uses non-identical tape pairs; distinct by hash".into(),
         assumptions: vec!["the OPRF blind is checked metamorphically only (RFC 9497 does not fix the sampling method)".into(),
             "32-byte collisions between independent tapes do not occur".into()],
         exhaustive: None,
